@@ -424,19 +424,59 @@ def c06(rep, tier, seed, wd, replay):
     sizes = tier_sizes(tier, (30, 40), (300, 100))
     opts = {"faults": True, "fault_rate": 0.45, "huge": True}
 
+    def corrupt_keys(h):
+        """(pubkey, action) pairs whose on-disk record the configuration made undecodable"""
+        bad = set()
+        for l in h["cfg"]:
+            f = l.split()
+            if f[0] == "raw":
+                k, v = bytes.fromhex(f[1]), bytes.fromhex(f[2])
+                ok = (v[:1] == b"\x01" and len(v) == (17 if k[-1] == 2 else 9)) or (v[:1] != b"\x01" and len(v) > 20)
+                if not ok:
+                    bad.add((k[:48], k[-1]))
+        return bad
+
     def lines(h):
+        bad = corrupt_keys(h)
         for i, op in enumerate(h["ops"]):
-            if op.split()[0] in SIGN_KINDS and i < len(h["impl"]):
-                for j, pos in enumerate(h["impl"][i].split()):
+            f = op.split()
+            if f[0] in SIGN_KINDS and i < len(h["impl"]):
+                poss = h["impl"][i].split()
+                for j, pos in enumerate(poss):
                     st = pos.split(":")[0]
                     yield ("jiff %s %d" % (st, 1 if ":" in pos else 0), (i, j, op[:200]))
+                # positions with a failing step on their path must not carry a signature
+                fl = f[5] if f[0] in ("att", "prop", "sign") else (f[3] if f[0] in ("atts", "msign") else "-")
+                toks = [] if fl == "-" else fl.split(",")
+                if f[0] in ("att", "prop"):
+                    key = hist.key_of_addr(f[3], h["accts"])
+                    onpath = any(t[0] in "fsSg" for t in toks) or (key, 2 if f[0] == "att" else 3) in bad
+                    if onpath and poss:
+                        yield ("jfault %d" % (1 if ":" in poss[0] else 0), (i, 0, op[:200]))
+                elif f[0] == "atts":
+                    items = f[4].split(";")
+                    keys = [hist.key_of_addr(it.split(",")[0], h["accts"]) for it in items]
+                    whole = any(t[0] in "fsS" for t in toks) or (len(items) > 1 and any((k, 2) in bad for k in keys))
+                    for j, pos in enumerate(poss):
+                        onpath = whole or ("g%d" % j) in toks or (j < len(keys) and (keys[j], 2) in bad)
+                        if onpath:
+                            yield ("jfault %d" % (1 if ":" in pos else 0), (i, j, op[:200]))
+                elif f[0] in ("sign", "msign"):
+                    for j, pos in enumerate(poss):
+                        if ("g%d" % j) in toks:
+                            yield ("jfault %d" % (1 if ":" in pos else 0), (i, j, op[:200]))
 
     def judge(rep, dh, wd, all_h):
         bad = judge_lines(rep, all_h, lines, "response_positions_judged")
         if bad:
             hi, i, j, op, verdict = bad[0]
-            rep.violation("not-closed", "a response position violates signature <-> SUCCEEDED",
-                          {"config": all_h[hi]["cfg"], "ops": all_h[hi]["ops"][:i + 1], "position": j})
+            if verdict == "SIGNED-DESPITE-FAULT":
+                rep.violation("signed-despite-fault", "a signature was returned although a step on the request's path failed "
+                              "(injected fault or undecodable record)",
+                              {"config": all_h[hi]["cfg"], "ops": all_h[hi]["ops"][:i + 1], "position": j})
+            else:
+                rep.violation("not-closed", "a response position violates signature <-> SUCCEEDED",
+                              {"config": all_h[hi]["cfg"], "ops": all_h[hi]["ops"][:i + 1], "position": j})
             return True
         # shape: one position per request
         for hi, h in enumerate(all_h):
@@ -1009,16 +1049,44 @@ def c11(rep, tier, seed, wd, replay):
                 for q in [max(s, 0), max(s, 0) + 1]:
                     ops.append(prop_line("client1", n0, q, 0))
         ops += ["export", "restart", "export"]
-        hs.append({"cfg": cfg, "ops": ops, "accts": accts, "opts": {}})
+        want = {}
+        for sp, (k, _) in zip(specs, raws):
+            w = want.setdefault(k[:48].hex(), ["-1", "-1", "-1"])
+            f = sp.split()
+            if f[0] == "att":
+                w[1], w[2] = f[1], f[2]
+            else:
+                w[0] = f[1]
+        hs.append({"cfg": cfg, "ops": ops, "accts": accts, "opts": {}, "want": want})
     engines.exec_histories(dh, wd, hs)
     rep.cov["legacy_record_histories"] = len(hs)
+    from common import run_model as _rm
+    found_legacy = False
+    jl, jm = [], []
+    for hi_, h in enumerate(hs):
+        ex = imp.parse_export(h["impl"][0]) if h["impl"] else None
+        if ex is None:
+            ex = {}
+        for k, w in h["want"].items():
+            g = ex.get(k, ("?", "?", "?"))
+            if "?" in g:
+                g = ("-9", "-9", "-9")
+            jl.append("jlegacy %s %s %s %s %s %s" % (g[0], g[1], g[2], w[0], w[1], w[2]))
+            jm.append((hi_, k))
+    if jl:
+        for (hi_, k), o in zip(jm, _rm(jl)):
+            if o.strip() != "ok":
+                found_legacy = True
+                rep.violation("legacy-record-not-honoured", "the export of a key whose records are in the old (gob) format does not state the values those records hold",
+                              {"config": hs[hi_]["cfg"], "ops": ["export"], "key": k, "export": hs[hi_]["impl"][0][:600], "expected": hs[hi_]["want"][k]})
+                break
     for h in hs:
         rep.count("gob" + json.dumps(h["cfg"][-6:]), True)
         if h["bad"]:
             i, op, il, ml = h["bad"][0]
             # a legacy record that is not honoured shows as: a request at/below the stored watermark gets signed
             rep.broken.append(("correspondence:legacy-gob-records(model Gob decode + rules vs implementation)",
-                               json.dumps({"config": h["cfg"], "ops": h["ops"][:i + 1], "impl": il[:200], "model": ml[:200]}), False))
+                               json.dumps({"config": h["cfg"], "ops": h["ops"][:i + 1], "impl": il[:200], "model": ml[:200]}), found_legacy))
             break
     # (c) export -> import into an empty store -> same decisions
     scen = []
@@ -1056,7 +1124,7 @@ def c11(rep, tier, seed, wd, replay):
     rep.cov["roundtrip_scenarios"] = len(scen)
 
 
-def run_conc(rep, dh, wd, keys, rng, n_steered, n_soak, soak_size, gomaxprocs, want_lin=True):
+def run_conc(rep, dh, wd, keys, rng, n_steered, n_soak, soak_size, gomaxprocs, want_lin=True, want_slash=True):
     """steered schedules + soak; returns (found_violation, stats)"""
     import conc
     from common import run_impl, run_model
@@ -1108,7 +1176,7 @@ def run_conc(rep, dh, wd, keys, rng, n_steered, n_soak, soak_size, gomaxprocs, w
                 jl.append("lin-end " + final)
                 jmeta.append((si, len(prefix) + 1 + len(cops) + 2))
         # judge: slashability of everything released
-        bad, nrel = engines.judge_slashing(slash_h, orderfree=True)
+        bad, nrel = engines.judge_slashing(slash_h, orderfree=True) if want_slash else ([], 0)
         rep.cov["released_signatures_judged"] = rep.cov.get("released_signatures_judged", 0) + nrel
         if bad:
             hi = bad[0][0]
@@ -1199,7 +1267,7 @@ def c15(rep, tier, seed, wd, replay):
     prove(rep, "C15")
     first_bad, dh, keys, rng = lock_trace_histories(rep, tier, seed, wd, "C15")
     ns, nsoak, ssize = tier_sizes(tier, (40, 3, 200), (600, 12, 600))
-    found = run_conc(rep, dh, wd, keys, rng, ns, nsoak, ssize, [2, None] if tier != "thorough" else [2, 16, 128], want_lin=False)
+    found = run_conc(rep, dh, wd, keys, rng, ns, nsoak, ssize, [2, None] if tier != "thorough" else [2, 16, 128], want_lin=False, want_slash=False)
     if first_bad is not None:
         h, (i, op, il, ml) = first_bad
         rep.broken.append(("correspondence:lock-trace(model lock protocol vs ruler+locker calls)",
